@@ -86,7 +86,7 @@ def render(ops):
         elif name == 'killtracer':
             lines.append('killtracer ' + n('tracer', op['t']))
         elif name == 'setreporter':
-            lines.append('setreporter %d' % op['r'])
+            lines.append('setreporter %d' % op['r'] if op.get('k') is None else 'setreporter %d %d' % (op['r'], op['k']))
         else:
             raise ValueError(name)
     return lines
@@ -327,7 +327,8 @@ class Gen:
             self.emit(op='tracer', t=t)
 
     def do_reporter(self):
-        self.emit(op='setreporter', r=self.r.randrange(1, 4))
+        # set_reporter(f) replaces the violation reporter only, set_reporter(f, ok_f) both
+        self.emit(op='setreporter', r=self.r.randrange(1, 4), k=(None if self.r.random() < 0.5 else self.r.randrange(1, 4)))
 
     def run(self, nops):
         fams = list(self.w.items())
